@@ -1,5 +1,5 @@
 """State type family used by the scope checks (module level, no postponed annotations: haiway resolves them)."""
-from haiway import State
+from haiway import Missing, State
 
 
 class T0(State):
@@ -29,4 +29,12 @@ class G[X](State):
     tag: X | None = None
 
 
-FAMILY = [T0, T1, T2, T3, G[int], G[str]]
+class T4(State):
+    """an attribute without a declared default that still needs no argument (it accepts the MISSING placeholder):
+    `T4()` works, so a lookup outside any supplier default-constructs it"""
+
+    w: int | Missing
+    v: int = 0
+
+
+FAMILY = [T0, T1, T2, T3, G[int], G[str], T4]
